@@ -24,7 +24,7 @@ func init() {
 			"with 0 accidentals the flat/sharp flag is reported as sharp (false): the circle of fifths has no flats there",
 			"tempo domain is the set of BPM values 60e6/f for every 24-bit field value f >= 1 (every representable tempo)",
 		},
-		Require: []string{"text_len_ge_128", "seqdata_len_ge_128", "tempo_fields", "named_keys", "key_tuples", "timesig_tuples", "meta_msgs_classified", "text_dictionary_points"},
+		Require: []string{"text_len_ge_128", "seqdata_len_ge_128", "tempo_fields", "named_keys", "key_tuples", "timesig_tuples", "meta_msgs_classified", "text_dictionary_points", "nil_pattern_calls"},
 		Run:     runC15,
 	})
 }
@@ -237,6 +237,102 @@ func runC15(c *mon.Ctx) {
 			c.DistinctBytes([]byte("smpte"), a[:])
 		}
 		c.Eval(999)
+	})
+
+	// ---- documented calling mode: only out parameters that are not nil are filled (all nil patterns)
+	c.Each("nil-patterns", 64, func(i int64, r *mon.Rand) {
+		a := [5]uint8{r.Byte(), r.Byte(), r.Byte(), r.Byte(), r.Byte()}
+		m := smf.MetaSMPTE(a[0], a[1], a[2], a[3], a[4])
+		for mask := 0; mask < 32; mask++ {
+			var o [5]uint8
+			var p [5]*uint8
+			for k := range o {
+				o[k] = a[k] + 1
+				if mask>>k&1 == 0 {
+					p[k] = &o[k]
+				}
+			}
+			ok := m.GetMetaSMPTEOffsetMsg(p[0], p[1], p[2], p[3], p[4])
+			c.Count("nil_pattern_calls", 1)
+			for k := range o {
+				if !ok || (p[k] != nil && o[k] != a[k]) {
+					c.Violation("accessor-nil-pattern:MetaSMPTE", fmt.Sprintf("GetMetaSMPTEOffsetMsg(MetaSMPTE%v) with nil pattern %05b: ok=%v, requested field %d = %d", a, mask, ok, k, o[k]), []any{a, mask}, a, o)
+					break
+				}
+			}
+		}
+		num, cl, dq := r.Byte(), r.Byte()|1, r.Byte()|1
+		den := uint8(1) << uint(r.Intn(8))
+		ts := smf.MetaTimeSig(num, den, cl, dq)
+		wantTS := [4]uint8{num, den, cl, dq}
+		for mask := 0; mask < 16; mask++ {
+			var o [4]uint8
+			var p [4]*uint8
+			for k := range o {
+				o[k] = wantTS[k] + 1
+				if mask>>k&1 == 0 {
+					p[k] = &o[k]
+				}
+			}
+			ok := ts.GetMetaTimeSig(p[0], p[1], p[2], p[3])
+			c.Count("nil_pattern_calls", 1)
+			for k := range o {
+				if !ok || (p[k] != nil && o[k] != wantTS[k]) {
+					c.Violation("accessor-nil-pattern:MetaTimeSig", fmt.Sprintf("GetMetaTimeSig(MetaTimeSig%v) with nil pattern %04b: ok=%v, requested field %d = %d", wantTS, mask, ok, k, o[k]), []any{wantTS, mask}, wantTS, o)
+					break
+				}
+			}
+			if mask < 4 {
+				var mn, md uint8 = num + 1, den + 1
+				var pn, pd *uint8
+				if mask&1 == 0 {
+					pn = &mn
+				}
+				if mask&2 == 0 {
+					pd = &md
+				}
+				if ok := ts.GetMetaMeter(pn, pd); !ok || (pn != nil && mn != num) || (pd != nil && md != den) {
+					c.Violation("accessor-nil-pattern:GetMetaMeter", fmt.Sprintf("GetMetaMeter with nil pattern %02b: ok=%v (%d,%d)", mask, ok, mn, md), []any{wantTS, mask}, nil, nil)
+				}
+			}
+		}
+		nacc := r.Intn(8)
+		flat, major := r.Bool(), r.Bool()
+		km := smf.MetaKey(0, major, uint8(nacc), flat)
+		wflat := flat && nacc > 0
+		wton := ref.KeyTonic(nacc, wflat, major)
+		for mask := 0; mask < 16; mask++ {
+			var k8, n8 uint8 = 99, 99
+			mj, fl := !major, !wflat
+			var pk, pn *uint8
+			var pm, pf *bool
+			if mask&1 == 0 {
+				pk = &k8
+			}
+			if mask&2 == 0 {
+				pn = &n8
+			}
+			if mask&4 == 0 {
+				pm = &mj
+			}
+			if mask&8 == 0 {
+				pf = &fl
+			}
+			ok := km.GetMetaKeySig(pk, pn, pm, pf)
+			c.Count("nil_pattern_calls", 1)
+			if !ok || (pk != nil && k8 != wton) || (pn != nil && int(n8) != nacc) || (pm != nil && mj != major) || (pf != nil && fl != wflat) {
+				c.Violation("accessor-nil-pattern:MetaKey", fmt.Sprintf("GetMetaKeySig with nil pattern %04b: ok=%v (%d,%d,%v,%v) want (%d,%d,%v,%v) where requested", mask, ok, k8, n8, mj, fl, wton, nacc, major, wflat), mask, nil, nil)
+			}
+		}
+		// single-out accessors must accept a nil out parameter
+		c.Guard("panic:nil-out", nil, func() {
+			ok := smf.MetaTempo(120).GetMetaTempo(nil) && smf.MetaChannel(3).GetMetaChannel(nil) && smf.MetaPort(3).GetMetaPort(nil) &&
+				smf.MetaSequenceNo(7).GetMetaSeqNumber(nil) && smf.MetaSequencerData([]byte{1}).GetMetaSeqData(nil) && smf.MetaText("x").GetMetaText(nil) &&
+				smf.MetaLyric("x").GetMetaLyric(nil) && smf.CMaj().GetMetaKey(nil)
+			if !ok {
+				c.Violation("accessor-nil-out", "an accessor with a nil out parameter rejects its own message", nil, true, false)
+			}
+		})
 	})
 
 	// ---- time signature: all numerators x power-of-two denominators x clock fields
